@@ -397,3 +397,408 @@ Proof.
   destruct (N.ltb_spec (in_seq i) two32); [|lia]. destruct (N.ltb_spec (lenN s) two64); [|lia].
   destruct (N.ltb_spec (lenN (in_irp i)) two64); [|lia]. destruct (N.ltb_spec (lenN (in_inrp i)) two64); [|lia]. reflexivity.
 Qed.
+
+(* ====================== taproot ====================== *)
+Lemma ser_out_witnesses_inj l l' :
+  (forall o, In o l \/ In o l' -> wf_out o = true) ->
+  ser_out_witnesses l = ser_out_witnesses l' -> map out_proofs l = map out_proofs l'.
+Proof.
+  intros W E.
+  assert (S : map (fun o => (o_sp o, o_rp o)) l = map (fun o => (o_sp o, o_rp o)) l').
+  { apply (enc_list_parse_inj (fun o => var_slice (o_sp o) ++ var_slice (o_rp o)) (fun o => (o_sp o, o_rp o)) p_proofs); [| |exact E].
+    - intros o Ho r. apply W in Ho. apply wf_out_parts in Ho as (_ & _ & _ & _ & Hr & Hs).
+      unfold p_proofs, bind. rewrite <- app_assoc.
+      rewrite p_var_slice_app by exact Hs. rewrite p_var_slice_app by exact Hr. reflexivity.
+    - intros o _. pose proof (var_slice_nonempty (o_sp o)). destruct (var_slice (o_sp o)); [congruence | discriminate]. }
+  clear -S. revert l' S. induction l as [|o l IH]; intros [|o' l'] S; try discriminate; [reflexivity|].
+  cbn [map] in *. injection S as A B C. unfold out_proofs at 1 2. rewrite A, B. f_equal. apply IH. exact C.
+Qed.
+
+Lemma ser_issuance_proofs_inj l l' :
+  (forall i, In i l \/ In i l' -> wf_in i = true) ->
+  ser_issuance_proofs l = ser_issuance_proofs l' -> map in_proofs l = map in_proofs l'.
+Proof.
+  intros W E. apply (enc_list_parse_inj (fun i => var_slice (in_irp i) ++ var_slice (in_inrp i)) in_proofs p_proofs); [| |exact E].
+  - intros i Hi r. apply W in Hi. apply wf_in_parts in Hi as (_ & _ & _ & _ & H1 & H2 & _).
+    unfold p_proofs, bind. rewrite <- app_assoc. rewrite p_var_slice_app by exact H1. rewrite p_var_slice_app by exact H2. reflexivity.
+  - intros i _. pose proof (var_slice_nonempty (in_irp i)). destruct (var_slice (in_irp i)); [congruence | discriminate].
+Qed.
+
+Lemma ser_scripts_inj l l' :
+  (forall x, In x l \/ In x l' -> lenN x < two64) -> ser_scripts l = ser_scripts l' -> l = l'.
+Proof.
+  intros W E. rewrite <- (map_id l), <- (map_id l').
+  apply (enc_list_parse_inj var_slice (fun x => x) p_var_slice); [| |exact E].
+  - intros x Hx r. apply p_var_slice_app. apply W; exact Hx.
+  - intros x _. apply var_slice_nonempty.
+Qed.
+
+Lemma input_flag_lt i : input_flag i < 256.
+Proof. unfold input_flag. destruct (in_iss i), (in_pegin i); lia. Qed.
+
+Lemma ser_flags_inj l l' : ser_flags l = ser_flags l' -> map input_flag l = map input_flag l'.
+Proof.
+  intro E. apply (enc_list_fixed_inj (fun i => [b8 (input_flag i)]) input_flag 1); [lia | reflexivity | | exact E].
+  intros a a' _ _ X. injection X as X. apply b8_small_inj; [apply input_flag_lt | apply input_flag_lt | exact X].
+Qed.
+
+(* asset/amount pairs of the spent outputs *)
+Definition p_asset_value : parser (bytes * bytes) := a <- p_asset ;; v <- p_value ;; ret (a, v).
+
+Lemma ser_asset_amounts_inj : forall aa vv aa' vv' x,
+  Forall (fun a => is_asset a = true) aa -> Forall (fun a => is_asset a = true) aa' ->
+  Forall (fun v => is_value v = true) vv -> Forall (fun v => is_value v = true) vv' ->
+  length aa = length vv -> length aa' = length vv' ->
+  ser_asset_amounts aa vv = Some x -> ser_asset_amounts aa' vv' = Some x -> aa = aa' /\ vv = vv'.
+Proof.
+  induction aa as [|a aa IH]; intros vv aa' vv' x Fa Fa' Fv Fv' L L' E E'.
+  - destruct vv; [|discriminate L]. cbn in E. injection E as <-.
+    destruct aa' as [|a' aa']; [destruct vv'; [auto | discriminate L']|].
+    destruct vv' as [|v' vv']; [discriminate L'|]. cbn in E'.
+    destruct (ser_asset_amounts aa' vv'); [|discriminate]. injection E' as E'.
+    inversion Fa' as [|? ? Ia _]; subst. apply is_asset_nonempty in Ia. destruct a'; [congruence | discriminate E'].
+  - destruct vv as [|v vv]; [discriminate L|]. cbn in E.
+    destruct (ser_asset_amounts aa vv) as [r|] eqn:R; [|discriminate]. injection E as <-.
+    inversion Fa as [|? ? Ia Fa2]; subst. inversion Fv as [|? ? Iv Fv2]; subst.
+    destruct aa' as [|a' aa'].
+    { destruct vv'; [|discriminate L']. cbn in E'. injection E' as E'.
+      apply is_asset_nonempty in Ia. destruct a; [congruence | discriminate E']. }
+    destruct vv' as [|v' vv']; [discriminate L'|]. cbn in E'.
+    destruct (ser_asset_amounts aa' vv') as [r'|] eqn:R'; [|discriminate]. injection E' as E'.
+    inversion Fa' as [|? ? Ia' Fa2']; subst. inversion Fv' as [|? ? Iv' Fv2']; subst.
+    pose proof (p_asset_app a (v ++ r) Ia) as Q. pose proof (p_asset_app a' (v' ++ r') Ia') as Q'.
+    rewrite E' in Q'. rewrite Q in Q'. injection Q' as <- Q'.
+    pose proof (p_value_app v r Iv) as P. pose proof (p_value_app v' r' Iv') as P'.
+    rewrite <- Q' in P'. rewrite P in P'. injection P' as <- <-.
+    cbn [length] in L, L'. injection L as L. injection L' as L'.
+    destruct (IH vv aa' vv' r Fa2 Fa2' Fv2 Fv2' L L' R R') as [-> ->]. auto.
+Qed.
+
+Section IdealHashV1.
+  Variable H1 : bytes -> bytes.
+  Hypothesis H_inj : forall a b, H1 a = H1 b -> a = b.
+  Hypothesis H_len : forall a, length (H1 a) = 32%nat.
+
+  (* the caller's per-input data: one well-formed (asset, value, script) per input, 32-byte genesis and leaf hashes *)
+  Definition v1_args_wf (t : tx) (a : v1_args) : Prop :=
+    length (v1_scripts a) = length (t_ins t) /\ length (v1_assets a) = length (t_ins t) /\
+    length (v1_values a) = length (t_ins t) /\
+    Forall (fun x => is_asset x = true) (v1_assets a) /\ Forall (fun x => is_value x = true) (v1_values a) /\
+    Forall (fun x => lenN x < two64) (v1_scripts a) /\
+    length (v1_genesis a) = 32%nat /\
+    match v1_leaf a with Some l => length l = 32%nat | None => True end /\
+    match v1_annex a with Some x => lenN x < two64 | None => True end.
+
+  Lemma v1_ins_part_inj t t' a a' ht x x' :
+    v1_acp ht = false ->
+    (forall i, In i (t_ins t) \/ In i (t_ins t') -> wf_in i = true) ->
+    same_iss_pattern (t_ins t) (t_ins t') \/ length (ser_issuances (t_ins t)) <> length (ser_issuances (t_ins t')) ->
+    v1_args_wf t a -> v1_args_wf t' a' ->
+    v1_ins_part H1 t a ht = Some x -> v1_ins_part H1 t' a' ht = Some x' -> x = x' ->
+    map input_flag (t_ins t) = map input_flag (t_ins t') /\ map in_outpoint (t_ins t) = map in_outpoint (t_ins t') /\
+    v1_assets a = v1_assets a' /\ v1_values a = v1_values a' /\ v1_scripts a = v1_scripts a' /\
+    map in_seq (t_ins t) = map in_seq (t_ins t') /\ map in_iss (t_ins t) = map in_iss (t_ins t') /\
+    map in_proofs (t_ins t) = map in_proofs (t_ins t').
+  Proof.
+    intros ACP W IC (L1 & L2 & L3 & Fa & Fv & Fs & _) (L1' & L2' & L3' & Fa' & Fv' & Fs' & _).
+    unfold v1_ins_part. rewrite ACP.
+    destruct (ser_asset_amounts (v1_assets a) (v1_values a)) as [aa|] eqn:A; [|discriminate].
+    destruct (ser_asset_amounts (v1_assets a') (v1_values a')) as [aa'|] eqn:A'; [|discriminate].
+    intros X X' E. injection X as <-. injection X' as <-.
+    apply app_inv_len in E as [E1 E]; [|rewrite !H_len; reflexivity].
+    apply app_inv_len in E as [E2 E]; [|rewrite !H_len; reflexivity].
+    apply app_inv_len in E as [E3 E]; [|rewrite !H_len; reflexivity].
+    apply app_inv_len in E as [E4 E]; [|rewrite !H_len; reflexivity].
+    apply app_inv_len in E as [E5 E]; [|rewrite !H_len; reflexivity].
+    apply app_inv_len in E as [E6 E7]; [|rewrite !H_len; reflexivity].
+    apply H_inj in E1, E2, E3, E4, E5, E6, E7. subst aa'.
+    destruct (ser_asset_amounts_inj _ _ _ _ _ Fa Fa' Fv Fv' ltac:(congruence) ltac:(congruence) A A') as [Ea Ev].
+    repeat split.
+    - apply ser_flags_inj; exact E1.
+    - apply (enc_list_fixed_inj ser_prevout in_outpoint 36); [lia | | | exact E2].
+      + intros i Hi. apply W in Hi. apply wf_in_parts in Hi as (L & _). unfold ser_prevout. rewrite app_length, L, le_enc_length. reflexivity.
+      + intros i i' Hi Hi' X. unfold ser_prevout in X.
+        pose proof (W i Hi) as Wi. pose proof (W i' Hi') as Wi'.
+        apply wf_in_parts in Wi as (Li & _ & _ & Ci & _). apply wf_in_parts in Wi' as (Li' & _ & _ & Ci' & _).
+        apply app_inv_len in X as [X1 X2]; [|rewrite Li, Li'; reflexivity].
+        unfold in_outpoint. f_equal; [exact X1|].
+        assert (B : forall j, (if in_index j =? MinusOne then negb (in_pegin j) && match in_iss j with None => true | Some _ => false end
+                 else (in_index j <=? OutpointIndexMask) && negb ((in_index j =? OutpointIndexMask) && in_pegin j && match in_iss j with Some _ => true | None => false end) &&
+                      match in_iss j with Some s => wf_iss s | None => true end) = true -> in_index j < two32).
+        { intros j Cj. destruct (N.eqb_spec (in_index j) MinusOne) as [->|_]; [reflexivity|].
+          rewrite !andb_true_iff in Cj. destruct Cj as [[Cj _] _]. unfold OutpointIndexMask, two32 in *. lia. }
+        apply (le_enc_inj 4); [cbn; pose proof (B i Ci); unfold two32 in *; lia | cbn; pose proof (B i' Ci'); unfold two32 in *; lia | exact X2].
+    - exact Ea.
+    - exact Ev.
+    - apply ser_scripts_inj; [|exact E4]. intros s [Hs|Hs]; [rewrite Forall_forall in Fs; apply Fs | rewrite Forall_forall in Fs'; apply Fs']; exact Hs.
+    - apply (enc_list_fixed_inj (fun i => le_enc 4 (in_seq i)) in_seq 4); [lia | intros; apply le_enc_length | | exact E5].
+      intros i i' Hi Hi' X. pose proof (W i Hi) as Wi. pose proof (W i' Hi') as Wi'.
+      apply wf_in_parts in Wi as (_ & Q & _). apply wf_in_parts in Wi' as (_ & Q' & _).
+      apply (le_enc_inj 4); [cbn; unfold two32 in *; lia | cbn; unfold two32 in *; lia | exact X].
+    - destruct IC as [IC|IC]; [|exfalso; apply IC; rewrite E6; reflexivity].
+      apply ser_issuances_inj; [|exact IC | exact E6]. intros i Hi. apply wf_in_iss. apply W; exact Hi.
+    - apply ser_issuance_proofs_inj; [exact W | exact E7].
+  Qed.
+
+  Lemma v1_outs_inj t t' idx ht :
+    (forall o, In o (t_outs t) \/ In o (t_outs t') -> wf_out o = true) ->
+    v1_outs_all H1 t ht = v1_outs_all H1 t' ht -> v1_outs_single H1 t idx ht = v1_outs_single H1 t' idx ht ->
+    option_map (map out_base) (covered_outs_v1 t idx ht) = option_map (map out_base) (covered_outs_v1 t' idx ht) /\
+    option_map (map out_proofs) (covered_outs_v1 t idx ht) = option_map (map out_proofs) (covered_outs_v1 t' idx ht).
+  Proof.
+    intros W. unfold v1_outs_all, v1_outs_single, covered_outs_v1.
+    destruct (v1_out_type ht =? 2) eqn:T2, (v1_out_type ht =? 3) eqn:T3; cbn [negb andb].
+    - (* impossible in practice (type both 2 and 3), but harmless *)
+      intros _ E. destruct (nth_error (t_outs t) idx) as [o|] eqn:N, (nth_error (t_outs t') idx) as [o'|] eqn:N'; cbn [option_map].
+      + apply app_inv_len in E as [E1 E2]; [|rewrite !H_len; reflexivity]. apply H_inj in E1, E2.
+        assert (Wo : forall x, In x [o] \/ In x [o'] -> wf_out x = true).
+        { intros x [[<-|[]]|[<-|[]]]; apply W; [left; eapply nth_error_In; exact N | right; eapply nth_error_In; exact N']. }
+        rewrite (ser_outputs_inj [o] [o'] Wo E1), (ser_out_witnesses_inj [o] [o'] Wo E2). auto.
+      + exfalso. apply (f_equal (@length byte)) in E. rewrite app_length, !H_len in E. discriminate E.
+      + exfalso. apply (f_equal (@length byte)) in E. rewrite app_length, !H_len in E. discriminate E.
+      + auto.
+    - intros _ _. auto.
+    - intros _ E. destruct (nth_error (t_outs t) idx) as [o|] eqn:N, (nth_error (t_outs t') idx) as [o'|] eqn:N'; cbn [option_map].
+      + apply app_inv_len in E as [E1 E2]; [|rewrite !H_len; reflexivity]. apply H_inj in E1, E2.
+        assert (Wo : forall x, In x [o] \/ In x [o'] -> wf_out x = true).
+        { intros x [[<-|[]]|[<-|[]]]; apply W; [left; eapply nth_error_In; exact N | right; eapply nth_error_In; exact N']. }
+        rewrite (ser_outputs_inj [o] [o'] Wo E1), (ser_out_witnesses_inj [o] [o'] Wo E2). auto.
+      + exfalso. apply (f_equal (@length byte)) in E. rewrite app_length, !H_len in E. discriminate E.
+      + exfalso. apply (f_equal (@length byte)) in E. rewrite app_length, !H_len in E. discriminate E.
+      + auto.
+    - intros E _. cbn [option_map]. apply app_inv_len in E as [E1 E2]; [|rewrite !H_len; reflexivity]. apply H_inj in E1, E2.
+      rewrite (ser_outputs_inj _ _ W E1), (ser_out_witnesses_inj _ _ W E2). auto.
+  Qed.
+End IdealHashV1.
+
+Section IdealHashV1Main.
+  Variable H1 : bytes -> bytes.
+  Hypothesis H_inj : forall a b, H1 a = H1 b -> a = b.
+  Hypothesis H_len : forall a, length (H1 a) = 32%nat.
+
+  Lemma var_slice_inj x x' : lenN x < two64 -> lenN x' < two64 -> var_slice x = var_slice x' -> x = x'.
+  Proof.
+    intros L L' E. pose proof (p_var_slice_app x [] L) as P. pose proof (p_var_slice_app x' [] L') as P'.
+    rewrite E in P. rewrite P in P'. congruence.
+  Qed.
+
+  Lemma input_flag_inj i i' : input_flag i = input_flag i' ->
+    (in_iss i = None <-> in_iss i' = None) /\ in_pegin i = in_pegin i'.
+  Proof.
+    unfold input_flag. destruct (in_iss i), (in_iss i'), (in_pegin i), (in_pegin i'); intro E; try lia;
+      split; try reflexivity; split; intro X; try discriminate; reflexivity.
+  Qed.
+
+  Local Opaque le_enc.
+
+  (* the signing input under ANYONECANPAY: self-delimiting given the flag byte *)
+  Lemma v1_own_part_acp_inj own own' idx a a' ht op op' tail tail' :
+    v1_acp ht = true -> wf_in own = true -> wf_in own' = true ->
+    Forall (fun x => is_asset x = true) (v1_assets a) -> Forall (fun x => is_asset x = true) (v1_assets a') ->
+    Forall (fun x => is_value x = true) (v1_values a) -> Forall (fun x => is_value x = true) (v1_values a') ->
+    Forall (fun x => lenN x < two64) (v1_scripts a) -> Forall (fun x => lenN x < two64) (v1_scripts a') ->
+    v1_own_part H1 own idx a ht = Some op -> v1_own_part H1 own' idx a' ht = Some op' ->
+    op ++ tail = op' ++ tail' ->
+    (input_flag own = input_flag own' /\ in_hash own = in_hash own' /\ in_index own = in_index own' /\
+     in_seq own = in_seq own' /\ in_iss own = in_iss own' /\
+     match in_iss own with Some _ => Some (in_proofs own) | None => None end =
+     match in_iss own' with Some _ => Some (in_proofs own') | None => None end /\
+     nth_error (v1_assets a) idx = nth_error (v1_assets a') idx /\
+     nth_error (v1_values a) idx = nth_error (v1_values a') idx /\
+     nth_error (v1_scripts a) idx = nth_error (v1_scripts a') idx) /\ tail = tail'.
+  Proof.
+    intros ACP Wo Wo' Fa Fa' Fv Fv' Fs Fs'. unfold v1_own_part. rewrite ACP.
+    destruct (nth_error (v1_assets a) idx) as [ea|] eqn:A; [|discriminate].
+    destruct (nth_error (v1_values a) idx) as [ev|] eqn:V; [|discriminate].
+    destruct (nth_error (v1_scripts a) idx) as [es|] eqn:S; [|discriminate].
+    destruct (nth_error (v1_assets a') idx) as [ea'|] eqn:A'; [|discriminate].
+    destruct (nth_error (v1_values a') idx) as [ev'|] eqn:V'; [|discriminate].
+    destruct (nth_error (v1_scripts a') idx) as [es'|] eqn:S'; [|discriminate].
+    assert (Ia : is_asset ea = true) by (rewrite Forall_forall in Fa; apply Fa; eapply nth_error_In; exact A).
+    assert (Ia' : is_asset ea' = true) by (rewrite Forall_forall in Fa'; apply Fa'; eapply nth_error_In; exact A').
+    assert (Iv : is_value ev = true) by (rewrite Forall_forall in Fv; apply Fv; eapply nth_error_In; exact V).
+    assert (Iv' : is_value ev' = true) by (rewrite Forall_forall in Fv'; apply Fv'; eapply nth_error_In; exact V').
+    assert (Is : lenN es < two64) by (rewrite Forall_forall in Fs; apply Fs; eapply nth_error_In; exact S).
+    assert (Is' : lenN es' < two64) by (rewrite Forall_forall in Fs'; apply Fs'; eapply nth_error_In; exact S').
+    pose proof (wf_in_parts own Wo) as (Lh & Lq & _ & Cc & _).
+    pose proof (wf_in_parts own' Wo') as (Lh' & Lq' & _ & Cc' & _).
+    intros X X'. injection X as <-. injection X' as <-. intro E.
+    cbn [app] in E. pose proof (f_equal (@hd byte x00) E) as Ef. apply (f_equal (@tl byte)) in E. cbn [hd tl] in Ef, E.
+    rewrite <- ?app_assoc in E.
+    apply b8_small_inj in Ef; [|apply input_flag_lt|apply input_flag_lt].
+    apply app_inv_len in E as [Eh E]; [|rewrite Lh, Lh'; reflexivity].
+    apply app_inv_len in E as [Ei E]; [|rewrite !le_enc_length; reflexivity].
+    (* asset, value, script: self-delimiting *)
+    assert (Eas : ea = ea').
+    { match type of E with ea ++ ?r = ea' ++ ?r' =>
+        pose proof (p_asset_app ea r Ia) as Q; pose proof (p_asset_app ea' r' Ia') as Q' end.
+      rewrite E in Q. rewrite Q in Q'. congruence. }
+    assert (E2 : ev ++ var_slice es ++ le_enc 4 (in_seq own) ++
+                 match in_iss own with Some s => ser_iss s ++ H1 (ser_issuance_proofs [own]) | None => [x00] end ++ tail =
+                 ev' ++ var_slice es' ++ le_enc 4 (in_seq own') ++
+                 match in_iss own' with Some s => ser_iss s ++ H1 (ser_issuance_proofs [own']) | None => [x00] end ++ tail').
+    { match type of E with ea ++ ?r = ea' ++ ?r' =>
+        pose proof (p_asset_app ea r Ia) as Q; pose proof (p_asset_app ea' r' Ia') as Q' end.
+      rewrite E in Q. rewrite Q in Q'. congruence. }
+    clear E.
+    assert (Evs : ev = ev').
+    { match type of E2 with ev ++ ?r = ev' ++ ?r' =>
+        pose proof (p_value_app ev r Iv) as Q; pose proof (p_value_app ev' r' Iv') as Q' end.
+      rewrite E2 in Q. rewrite Q in Q'. congruence. }
+    assert (E3 : var_slice es ++ le_enc 4 (in_seq own) ++
+                 match in_iss own with Some s => ser_iss s ++ H1 (ser_issuance_proofs [own]) | None => [x00] end ++ tail =
+                 var_slice es' ++ le_enc 4 (in_seq own') ++
+                 match in_iss own' with Some s => ser_iss s ++ H1 (ser_issuance_proofs [own']) | None => [x00] end ++ tail').
+    { match type of E2 with ev ++ ?r = ev' ++ ?r' =>
+        pose proof (p_value_app ev r Iv) as Q; pose proof (p_value_app ev' r' Iv') as Q' end.
+      rewrite E2 in Q. rewrite Q in Q'. congruence. }
+    clear E2.
+    assert (Ess : es = es').
+    { match type of E3 with var_slice es ++ ?r = var_slice es' ++ ?r' =>
+        pose proof (p_var_slice_app es r Is) as Q; pose proof (p_var_slice_app es' r' Is') as Q' end.
+      rewrite E3 in Q. rewrite Q in Q'. congruence. }
+    assert (E4 : le_enc 4 (in_seq own) ++
+                 match in_iss own with Some s => ser_iss s ++ H1 (ser_issuance_proofs [own]) | None => [x00] end ++ tail =
+                 le_enc 4 (in_seq own') ++
+                 match in_iss own' with Some s => ser_iss s ++ H1 (ser_issuance_proofs [own']) | None => [x00] end ++ tail').
+    { match type of E3 with var_slice es ++ ?r = var_slice es' ++ ?r' =>
+        pose proof (p_var_slice_app es r Is) as Q; pose proof (p_var_slice_app es' r' Is') as Q' end.
+      rewrite E3 in Q. rewrite Q in Q'. congruence. }
+    clear E3.
+    apply app_inv_len in E4 as [Eq E5]; [|rewrite !le_enc_length; reflexivity].
+    assert (Bidx : forall j, (if in_index j =? MinusOne then negb (in_pegin j) && match in_iss j with None => true | Some _ => false end
+                 else (in_index j <=? OutpointIndexMask) && negb ((in_index j =? OutpointIndexMask) && in_pegin j && match in_iss j with Some _ => true | None => false end) &&
+                      match in_iss j with Some s => wf_iss s | None => true end) = true -> in_index j < two32).
+    { intros j Cj. destruct (N.eqb_spec (in_index j) MinusOne) as [->|_]; [reflexivity|].
+      rewrite !andb_true_iff in Cj. destruct Cj as [[Cj _] _]. unfold OutpointIndexMask, two32 in *. lia. }
+    assert (Ei' : in_index own = in_index own')
+      by (apply (le_enc_inj 4); [cbn; pose proof (Bidx own Cc); unfold two32 in *; lia | cbn; pose proof (Bidx own' Cc'); unfold two32 in *; lia | exact Ei]).
+    assert (Eq' : in_seq own = in_seq own') by (apply (le_enc_inj 4); [cbn; unfold two32 in *; lia | cbn; unfold two32 in *; lia | exact Eq]).
+    destruct (input_flag_inj own own' Ef) as [Pres _].
+    pose proof (wf_in_iss own Wo) as Wi. pose proof (wf_in_iss own' Wo') as Wi'.
+    destruct (in_iss own) as [s|] eqn:I1, (in_iss own') as [s'|] eqn:I2.
+    - cbn in Wi, Wi'. rewrite <- !app_assoc in E5.
+      pose proof (p_issuance_app s (H1 (ser_issuance_proofs [own]) ++ tail) Wi) as Q.
+      pose proof (p_issuance_app s' (H1 (ser_issuance_proofs [own']) ++ tail') Wi') as Q'.
+      rewrite E5 in Q. rewrite Q in Q'. injection Q' as <- E6.
+      apply app_inv_len in E6 as [E7 E8]; [|rewrite !H_len; reflexivity]. apply H_inj in E7.
+      assert (Ep : in_proofs own = in_proofs own').
+      { assert (M : map in_proofs [own] = map in_proofs [own']).
+        { apply ser_issuance_proofs_inj; [|exact E7]. intros x [[<-|[]]|[<-|[]]]; assumption. }
+        cbn in M. congruence. }
+      rewrite Ep. repeat split; congruence.
+    - exfalso. destruct Pres as [_ Pres]. specialize (Pres eq_refl). discriminate.
+    - exfalso. destruct Pres as [Pres _]. specialize (Pres eq_refl). discriminate.
+    - cbn [app] in E5. injection E5 as E5. repeat split; congruence.
+  Qed.
+
+  Lemma v1_ins_part_length t a ht x : v1_ins_part H1 t a ht = Some x ->
+    length x = if v1_acp ht then 0%nat else 224%nat.
+  Proof.
+    unfold v1_ins_part. destruct (v1_acp ht); [intro E; injection E as <-; reflexivity|].
+    destruct (ser_asset_amounts (v1_assets a) (v1_values a)); [|discriminate].
+    intro E; injection E as <-. rewrite !app_length, !H_len. reflexivity.
+  Qed.
+
+  Lemma v1_outs_all_length t ht : length (v1_outs_all H1 t ht) =
+    if negb (v1_out_type ht =? 2) && negb (v1_out_type ht =? 3) then 64%nat else 0%nat.
+  Proof. unfold v1_outs_all. destruct (negb _ && negb _); [rewrite app_length, !H_len|]; reflexivity. Qed.
+
+  Lemma spend_lt a : v1_spend_type a < 256.
+  Proof. unfold v1_spend_type. destruct (v1_leaf a), (v1_annex a); lia. Qed.
+
+  Lemma spend_inj a a' : v1_spend_type a = v1_spend_type a' ->
+    (v1_leaf a = None <-> v1_leaf a' = None) /\ (v1_annex a = None <-> v1_annex a' = None).
+  Proof.
+    unfold v1_spend_type. destruct (v1_leaf a), (v1_leaf a'), (v1_annex a), (v1_annex a'); intro E; try lia;
+      split; split; intro X; try discriminate; reflexivity.
+  Qed.
+
+  Theorem v1_sensitive t t' idx a a' ht p :
+    wf_tx t = true -> wf_tx t' = true ->
+    (same_iss_pattern (t_ins t) (t_ins t') \/ length (ser_issuances (t_ins t)) <> length (ser_issuances (t_ins t'))) ->
+    v1_args_wf t a -> v1_args_wf t' a' ->
+    preimage_v1 H1 t idx a ht = Some p -> preimage_v1 H1 t' idx a' ht = Some p ->
+    view_v1 t idx a ht = view_v1 t' idx a' ht.
+  Proof.
+    intros W W' IC AW AW'.
+    pose proof AW as (L1 & L2 & L3 & Fa & Fv & Fs & Lg & Ll & Lx).
+    pose proof AW' as (L1' & L2' & L3' & Fa' & Fv' & Fs' & Lg' & Ll' & Lx').
+    apply wf_tx_parts in W as (Hver & Hlt & _ & _ & Win & Wout).
+    apply wf_tx_parts in W' as (Hver' & Hlt' & _ & _ & Win' & Wout').
+    unfold preimage_v1, view_v1.
+    destruct (nth_error (t_ins t) idx) as [own|] eqn:N; [|discriminate].
+    destruct (nth_error (t_ins t') idx) as [own'|] eqn:N'; [|discriminate].
+    assert (Wo : wf_in own = true) by (apply Win; eapply nth_error_In; exact N).
+    assert (Wo' : wf_in own' = true) by (apply Win'; eapply nth_error_In; exact N').
+    destruct (v1_ins_part H1 t a ht) as [ip|] eqn:IP; [|discriminate].
+    destruct (v1_own_part H1 own idx a ht) as [op|] eqn:OP; [|discriminate].
+    destruct (v1_ins_part H1 t' a' ht) as [ip'|] eqn:IP'; [|discriminate].
+    destruct (v1_own_part H1 own' idx a' ht) as [op'|] eqn:OP'; [|discriminate].
+    intros P P'. injection P as P. injection P' as P'. rewrite <- P' in P. clear P' p.
+    apply app_inv_len in P as [Eg P]; [|rewrite Lg, Lg'; reflexivity].
+    apply app_inv_len in P as [_ P]; [|rewrite Lg, Lg'; reflexivity].
+    cbn [app] in P. apply (f_equal (@tl byte)) in P. cbn [tl] in P.
+    apply app_inv_len in P as [Ever P]; [|rewrite !le_enc_length; reflexivity].
+    apply app_inv_len in P as [Elt P]; [|rewrite !le_enc_length; reflexivity].
+    apply app_inv_len in P as [Eip P]; [|rewrite (v1_ins_part_length _ _ _ _ IP), (v1_ins_part_length _ _ _ _ IP'); reflexivity].
+    apply app_inv_len in P as [Eoa P]; [|rewrite !v1_outs_all_length; reflexivity].
+    cbn [app] in P. pose proof (f_equal (@hd byte x00) P) as Esp. apply (f_equal (@tl byte)) in P. cbn [hd tl] in Esp, P.
+    apply b8_small_inj in Esp; [|apply spend_lt|apply spend_lt].
+    destruct (spend_inj a a' Esp) as [Pl Pa].
+    assert (Ever' : t_version t = t_version t') by (apply (le_enc_inj 4); [cbn; unfold two32 in *; lia | cbn; unfold two32 in *; lia | exact Ever]).
+    assert (Elt' : t_locktime t = t_locktime t') by (apply (le_enc_inj 4); [cbn; unfold two32 in *; lia | cbn; unfold two32 in *; lia | exact Elt]).
+    (* the signing input part, then the tail *)
+    assert (TAIL : forall tl tl', op ++ tl = op' ++ tl' -> tl = tl' /\
+      (if v1_acp ht
+       then Some (input_flag own, in_hash own, in_index own, in_seq own, in_iss own,
+                  match in_iss own with Some _ => Some (in_proofs own) | None => None end,
+                  nth_error (v1_assets a) idx, nth_error (v1_values a) idx, nth_error (v1_scripts a) idx)
+       else None) =
+      (if v1_acp ht
+       then Some (input_flag own', in_hash own', in_index own', in_seq own', in_iss own',
+                  match in_iss own' with Some _ => Some (in_proofs own') | None => None end,
+                  nth_error (v1_assets a') idx, nth_error (v1_values a') idx, nth_error (v1_scripts a') idx)
+       else None)).
+    { intros tl tl' E. destruct (v1_acp ht) eqn:ACP.
+      - destruct (v1_own_part_acp_inj own own' idx a a' ht op op' tl tl' ACP Wo Wo' Fa Fa' Fv Fv' Fs Fs' OP OP' E)
+          as [(X1 & X2 & X3 & X4 & X5 & X6 & X7 & X8 & X9) Et].
+        split; [exact Et|]. rewrite X1, X2, X3, X4, X6, X5, X7, X8, X9. reflexivity.
+      - unfold v1_own_part in OP, OP'. rewrite ACP in OP, OP'. injection OP as <-. injection OP' as <-.
+        apply app_inv_len in E as [_ E]; [|reflexivity]. split; [exact E | reflexivity]. }
+    destruct (TAIL _ _ P) as [P2 Eown]. clear TAIL P.
+    (* annex *)
+    assert (Eannex : v1_annex a = v1_annex a' /\
+      v1_outs_single H1 t idx ht ++ match v1_leaf a with Some l => l ++ [x00] ++ le_enc 4 0xffffffff | None => [] end =
+      v1_outs_single H1 t' idx ht ++ match v1_leaf a' with Some l => l ++ [x00] ++ le_enc 4 0xffffffff | None => [] end).
+    { destruct (v1_annex a) as [x|] eqn:X, (v1_annex a') as [x'|] eqn:X'.
+      - apply app_inv_len in P2 as [E1 E2]; [|rewrite !H_len; reflexivity]. apply H_inj in E1.
+        apply var_slice_inj in E1; [subst x'; auto | exact Lx | exact Lx'].
+      - exfalso. destruct Pa as [_ Pa]. specialize (Pa eq_refl). discriminate.
+      - exfalso. destruct Pa as [Pa _]. specialize (Pa eq_refl). discriminate.
+      - cbn [app] in P2. auto. }
+    destruct Eannex as [Eannex P3]. clear P2.
+    assert (Eleaf : v1_leaf a = v1_leaf a' /\ v1_outs_single H1 t idx ht = v1_outs_single H1 t' idx ht).
+    { destruct (v1_leaf a) as [l|] eqn:X, (v1_leaf a') as [l'|] eqn:X'.
+      - apply app_inv_len_tail in P3 as [E1 E2]; [|rewrite !app_length, Ll, Ll'; reflexivity].
+        apply app_inv_len in E2 as [E2 _]; [|rewrite Ll, Ll'; reflexivity]. subst l'. auto.
+      - exfalso. destruct Pl as [_ Pl]. specialize (Pl eq_refl). discriminate.
+      - exfalso. destruct Pl as [Pl _]. specialize (Pl eq_refl). discriminate.
+      - rewrite !app_nil_r in P3. auto. }
+    destruct Eleaf as [Eleaf Eos].
+    assert (Wouts : forall o, In o (t_outs t) \/ In o (t_outs t') -> wf_out o = true) by (intros o [Ho|Ho]; [apply Wout | apply Wout']; exact Ho).
+    destruct (v1_outs_inj H1 H_inj H_len t t' idx ht Wouts Eoa Eos) as [Eob Eop].
+    assert (Eins : (if v1_acp ht then None
+             else Some (map input_flag (t_ins t), map in_outpoint (t_ins t), v1_assets a, v1_values a, v1_scripts a,
+                        map in_seq (t_ins t), map in_iss (t_ins t), map in_proofs (t_ins t))) =
+            (if v1_acp ht then None
+             else Some (map input_flag (t_ins t'), map in_outpoint (t_ins t'), v1_assets a', v1_values a', v1_scripts a',
+                        map in_seq (t_ins t'), map in_iss (t_ins t'), map in_proofs (t_ins t')))).
+    { destruct (v1_acp ht) eqn:ACP; [reflexivity|].
+      assert (Wins : forall i, In i (t_ins t) \/ In i (t_ins t') -> wf_in i = true) by (intros i [Hi|Hi]; [apply Win | apply Win']; exact Hi).
+      destruct (v1_ins_part_inj H1 H_inj H_len t t' a a' ht ip ip' ACP Wins IC AW AW' IP IP' Eip)
+        as (X1 & X2 & X3 & X4 & X5 & X6 & X7 & X8).
+      rewrite X1, X2, X3, X4, X5, X6, X7, X8. reflexivity. }
+    rewrite Ever', Elt', Eg, Eleaf, Eannex, Eown, Eins, Eob, Eop. reflexivity.
+  Qed.
+End IdealHashV1Main.
